@@ -17,6 +17,7 @@ from .poly import Q, q_eq_parts
 from .array import SymArray
 
 TOL = 1e-6
+from .paths import REPO_SRC as _REPO_SRC
 
 
 class Claim(object):
@@ -389,9 +390,9 @@ def explore(fn, params, max_paths=64, feas_timeout=10.0, stats=None, max_decisio
             tb = traceback.extract_tb(sys.exc_info()[2])
             where = "%s:%d" % (os.path.basename(tb[-1].filename), tb[-1].lineno) if tb else "?"
             last = tb[-1].filename if tb else ""
-            if last.startswith("/repo/src"):
+            if last.startswith(_REPO_SRC):
                 outcome = 'error: %s: %s at %s' % (type(e).__name__, str(e)[:200], where)
-            elif any(f.filename.startswith("/repo/src") for f in tb):
+            elif any(f.filename.startswith(_REPO_SRC) for f in tb):
                 outcome = 'unmodelled: %s: %s at %s (raised inside the symbolic layer / a library)' % (
                     type(e).__name__, str(e)[:200], where)
             else:
